@@ -74,16 +74,31 @@ def outcome(resp, generator):
     return ["other", status]
 
 
+PLACEMENT = "form"     # set per cell: form | query | both (query carries a decoy that the form overrides)
+
+
 def with_scope(d, scope):
-    if scope is not None:
+    if scope is not None and PLACEMENT in ("form", "both"):
         d = dict(d, scope=scope)
     return d
 
 
-def run_flow(grant, generator, supported, client_scope, requested, original):
+def uri_scope(uri, scope):
+    from urllib.parse import urlencode
+    if PLACEMENT == "query" and scope is not None:
+        return uri + "?" + urlencode({"scope": scope})
+    if PLACEMENT == "both" and scope is not None:
+        return uri + "?" + urlencode({"scope": "a b c d e"})
+    return uri
+
+
+def run_flow(grant, generator, supported, client_scope, requested, original, placement="form"):
+    global PLACEMENT
+    PLACEMENT = placement
     store, srv = build(supported, client_scope, generator)
     hdr = S.basic_header("c1", "sec")
-    tok_uri = "https://as.example/token"
+    tok_uri0 = "https://as.example/token"
+    tok_uri = uri_scope(tok_uri0, requested) if grant in ("password", "client_credentials", "refresh", "jwt_bearer") else tok_uri0
     if grant == "password":
         form = with_scope({"grant_type": "password", "username": "alice", "password": "pw"}, requested)
         return outcome(srv.create_token_response(S.HReq("POST", tok_uri, form, hdr)), generator)
@@ -94,7 +109,7 @@ def run_flow(grant, generator, supported, client_scope, requested, original):
         params = with_scope({"response_type": "code" if grant == "code" else "token",
                              "client_id": "c1" if grant == "code" else "p1",
                              "redirect_uri": "https://client.example/cb", "state": "st"}, requested)
-        uri = "https://as.example/authorize"
+        uri = uri_scope("https://as.example/authorize", requested)
         resp = srv.create_authorization_response(S.HReq("POST", uri, params, {}), grant_user=S.User("alice"))
         status, body, headers = resp
         loc = dict(headers).get("Location", "")
@@ -126,7 +141,7 @@ def run_flow(grant, generator, supported, client_scope, requested, original):
         return outcome(srv.create_token_response(S.HReq("POST", tok_uri, form, hdr)), generator)
     if grant == "device":
         form = with_scope({"client_id": "c1"}, requested)
-        status, body, headers = srv.create_endpoint_response("device_authorization", S.HReq("POST", "https://as.example/device", form, hdr))
+        status, body, headers = srv.create_endpoint_response("device_authorization", S.HReq("POST", uri_scope("https://as.example/device", requested), form, hdr))
         if status != 200:
             return ["error", body.get("error")] if isinstance(body, dict) else ["other", status]
         store.user_grants[body["user_code"]] = (S.User("alice"), True)
@@ -134,7 +149,7 @@ def run_flow(grant, generator, supported, client_scope, requested, original):
         return outcome(srv.create_token_response(S.HReq("POST", tok_uri, form, hdr)), generator)
     if grant == "jwt_bearer":
         now = int(time.time())
-        assertion = jwt.encode({"alg": "HS256"}, {"iss": "c1", "sub": "alice", "aud": tok_uri, "exp": now + 300, "iat": now},
+        assertion = jwt.encode({"alg": "HS256"}, {"iss": "c1", "sub": "alice", "aud": tok_uri0, "exp": now + 300, "iat": now},
                                CLIENT_KEY).decode()
         form = with_scope({"grant_type": "urn:ietf:params:oauth:grant-type:jwt-bearer", "assertion": assertion}, requested)
         return outcome(srv.create_token_response(S.HReq("POST", tok_uri, form, {})), generator)
@@ -172,15 +187,21 @@ def run(ctx):
     ctx.extra["product_cells_total"] = total
     ctx.rule = ("product of grant (7) x token generator (bearer, RFC 9068 JWT; RFC 7523 JWT for jwt-bearer) x "
                 "server-supported set (8 shapes incl. unconfigured) x client-allowed scope (8) x requested scope (16 "
-                "incl. absent, duplicates, reorderings, unsupported) x original scope (16, refresh only); the quick tier "
+                "incl. absent, duplicates, reorderings, unsupported) x placement of the scope parameter (form, query, both) x original scope (16, refresh only); the quick tier "
                 "runs a seeded 10% of the cells, the thorough tier all of them. distinct_nontrivial = distinct "
                 "(grant, generator, supported, allowed, requested, original) cells that issued a token or an error")
-    for grant, gen, sup, cs, req, orig in cells:
-        got = run_flow(grant, gen, sup, cs, req, orig)
+    for i, (grant, gen, sup, cs, req, orig) in enumerate(cells):
+        placement = ["form", "query", "both"][i % 3] if ctx.tier == "quick" else None
+        for pl in ([placement] if placement else ["form", "query", "both"]):
+            check_cell(ctx, m, grant, gen, sup, cs, req, orig, pl)
+
+
+def check_cell(ctx, m, grant, gen, sup, cs, req, orig, placement):
+        got = run_flow(grant, gen, sup, cs, req, orig, placement)
         a = {"grant": grant, "generator": gen, "supported": sup or [], "client_scope": cs, "requested": req, "original": orig}
         mod = m.call("issue", a)
-        case = dict(a, supported=sup)
-        ctx.case(case, (grant, gen, json.dumps(sup), cs, req, orig), "%s:%s:%s" % (grant, gen, got[0] if got[0] != "error" else got[1]))
+        case = dict(a, supported=sup, placement=placement)
+        ctx.case(case, (grant, gen, json.dumps(sup), cs, req, orig, placement), "%s:%s:%s" % (grant, gen, got[0] if got[0] != "error" else got[1]))
         ctx.compare("issue", case, got, mod)
         # ---- the property, on the implementation's observable output
         if got[0] == "issued":
@@ -212,7 +233,8 @@ def run(ctx):
 
 
 def run_case(ctx, case):
-    got = run_flow(case["grant"], case["generator"], case["supported"], case["client_scope"], case["requested"], case["original"])
+    got = run_flow(case["grant"], case["generator"], case["supported"], case["client_scope"], case["requested"], case["original"],
+                   case.get("placement", "form"))
     if got[0] == "issued":
         for label, sc in (("response", got[1]), ("embedded", got[2])):
             if not words(sc) <= words(case["client_scope"]):
